@@ -33,14 +33,14 @@ def snapshot(value: V, memo: Optional[dict] = None) -> V:
     if isinstance(value, TupleV):
         return TupleV([snapshot(v, memo) for v in value.items])
     if isinstance(value, SeqV):
-        return SeqV(value.arr, value.n, value.et)
+        return value.clone()
     if isinstance(value, SetV):
         return SetV(items=list(value.items) if value.items is not None else None, arr=value.arr, et=value.et)
     if isinstance(value, DictV):
         if value.entries is not None:
             return DictV(entries=[(snapshot(k, memo), snapshot(v, memo)) for k, v in value.entries],
                          default_factory=value.default_factory)
-        return DictV(keys=SeqV(value.keys.arr, value.keys.n, value.keys.et), vals=value.vals, vt=value.vt)
+        return DictV(keys=value.keys.clone(), vals=value.vals, vt=value.vt)
     return value
 
 
@@ -67,6 +67,7 @@ def verify_contract(repo: str, con: Any, contracts_by_target: dict[str, Any], mo
         result["loops"] = len(loop_nodes)
         interp = Interp(world, ctx, contracts_by_target, stubs=con.__dict__.get("stubs"),
                         unroll=con.__dict__.get("unroll", 6))
+        interp.open_findings = open_findings
         for relname in con.__dict__.get("modules", []):
             world.load(relname)
         for cls_name, relname in (con.__dict__.get("class_pref") or {}).items():
@@ -93,13 +94,25 @@ def verify_contract(repo: str, con: Any, contracts_by_target: dict[str, Any], mo
             if requires is not None:
                 pre = interp.truth(interp.eval_named(requires, args))
                 ctx.assume(pre if not isinstance(pre, bool) else z3.BoolVal(pre))
+            clause_guard: dict[str, list] = {}
+            only_clauses = None
             for fid in open_ids:
-                klass = interp.truth(interp.eval_named(known[fid], args))
+                entry = known[fid]
+                klass_fn, labels = entry if isinstance(entry, tuple) else (entry, None)
+                klass = interp.truth(interp.eval_named(klass_fn, args))
                 klass = klass if not isinstance(klass, bool) else z3.BoolVal(klass)
-                if mode == "main":
-                    ctx.assume(z3.Not(klass))
-                elif mode == f"known:{fid}":
-                    ctx.assume(klass)
+                if labels is None:
+                    if mode == "main":
+                        ctx.assume(z3.Not(klass))
+                    elif mode == f"known:{fid}":
+                        ctx.assume(klass)
+                else:
+                    if mode == "main":
+                        for label in labels:
+                            clause_guard.setdefault(label, []).append(z3.Not(klass))
+                    elif mode == f"known:{fid}":
+                        ctx.assume(klass)
+                        only_clauses = labels
             if not ctx.feasible(z3.BoolVal(True)):
                 raise PathPruned()
             old = ObjV("_Old", {name: snapshot(value) for name, value in args.items()})
@@ -138,7 +151,12 @@ def verify_contract(repo: str, con: Any, contracts_by_target: dict[str, Any], mo
                 values["effects"] = _effects_value(interp)
                 clauses = ensures.items() if isinstance(ensures, dict) else ([("", ensures)] if ensures else [])
                 for label, fn in clauses:
+                    if only_clauses is not None and label not in only_clauses:
+                        continue
                     post = interp.truth(interp.eval_named(fn, values))
+                    guards = clause_guard.get(label)
+                    if guards:
+                        post = z3.Implies(z3.And(guards), post if not isinstance(post, bool) else z3.BoolVal(post))
                     ctx.prove(post, "post", def_line, label)
                 outcomes["return"] = outcomes.get("return", 0) + 1
             ctx.cover("path-end")
